@@ -14,6 +14,7 @@
 import MdModel.SymParse
 import MdProofs.Lemmas.SymStream
 import MdProofs.Lemmas.SymNoPanic
+import MdProofs.Lemmas.SymDrop
 namespace MdModel.Sym
 open MdModel MdModel.Stream MdModel.Gen.SymConsts
 
@@ -101,5 +102,106 @@ theorem parse_total (input : Bytes) (sched : List Nat) :
   rcases parse_no_panic input sched with ⟨f, h⟩ | ⟨k, l, h⟩
   · rw [h]; exact ⟨fun e he => (by cases he), fun he => (by cases he)⟩
   · rw [h]; exact ⟨fun e he => (by cases he), fun he => (by cases he)⟩
+
+
+/-! ## "A single over-long line is dropped as corrupt rather than failing the parse or exhausting
+       memory." -/
+
+theorem consts_drop : (∃ k, INITIAL_BUFFER_CAPACITY * 2 ^ k = MAX_BUFFER_CAPACITY) ∧
+    2 * MAX_BUFFER_CAPACITY ≤ U64MAX ∧ 0 < INITIAL_BUFFER_CAPACITY :=
+  ⟨⟨4, by decide⟩, by decide, by decide⟩
+
+/-- **`SymbolFile::parse` computes the reference semantics with dropped lines, for EVERY chunk
+    schedule**: if every line of the input (terminator included) is either at most
+    `MAX_BUFFER_CAPACITY/2` long or longer than `MAX_BUFFER_CAPACITY` (and the unterminated rest is
+    shorter than half or at least the limit), the outcome is `specOutM`: the per-line step folded
+    over the lines, where an over-long line ONLY advances the line counter (it is never handed to a
+    record parser, never fails the parse), an over-long unterminated rest is dropped (`Ok`), a short
+    one is `unexpected EOF`. -/
+theorem stream_eq_specM (input : Bytes) (sched : List Nat)
+    (hmix : Mixed (MAX_BUFFER_CAPACITY / 2) MAX_BUFFER_CAPACITY input) :
+    ∃ sf, parseStream input sched =
+      some (specOutM Lsym symOps.bumpLine symOps.lines MAX_BUFFER_CAPACITY {} input, sf) :=
+  machine_eq_specM MAX_BUFFER_CAPACITY INITIAL_BUFFER_CAPACITY input symOps Lsym {} sched
+    parseMore_eq consts_drop.2.1 consts_drop.2.2 consts_drop.1 hmix
+
+/-- the outcome of a file `pre ++ [dropped line] ++ post` (`withLine = true`) and of `pre ++ post`
+    (`withLine = false`), `pre` being complete lines: they differ ONLY in the line counter being
+    advanced by one before `post` -/
+def dropOutcome (pre : List Bytes) (post : Bytes) (withLine : Bool) : Out PState :=
+  match foldLM Lsym symOps.bumpLine MAX_BUFFER_CAPACITY {} pre with
+  | .ok st1 =>
+    specRestM Lsym symOps.bumpLine symOps.lines MAX_BUFFER_CAPACITY
+      (if withLine then symOps.bumpLine st1 else st1) (withLine || !pre.isEmpty) post
+  | .err k n => .err k n
+  | .panic e => .panic e
+
+/-- **long_line_dropped** (DESIGN §6.C09.4, for arbitrary chunk schedules on both sides): a line
+    whose content is at least `MAX_BUFFER_CAPACITY` bytes is dropped — parsing
+    `pre ++ long ++ "\n" ++ post` gives the outcome of parsing `pre ++ post` with the line counter
+    advanced by one at that point, whatever the chunking of either parse.  Hypothesis: the other
+    lines are short (≤ 80 KiB with terminator) or over-long themselves (`Mixed`); lines in between
+    are alignment dependent in the code and are excluded. -/
+theorem long_line_dropped (pre : List Bytes) (hpre : ∀ l ∈ pre, IsLine l) (long post : Bytes)
+    (hnl : Stream.NL ∉ long) (hlen : long.length ≥ MAX_BUFFER_CAPACITY) (sched sched' : List Nat)
+    (hmix : Mixed (MAX_BUFFER_CAPACITY / 2) MAX_BUFFER_CAPACITY (pre.flatten ++ ((long ++ [Stream.NL]) ++ post))) :
+    ∃ sf sf',
+      parseStream (pre.flatten ++ ((long ++ [Stream.NL]) ++ post)) sched = some (dropOutcome pre post true, sf) ∧
+      parseStream (pre.flatten ++ post) sched' = some (dropOutcome pre post false, sf') := by
+  have hline : ∀ l ∈ [long ++ [Stream.NL]], IsLine l := by
+    intro l hl; simp only [List.mem_singleton] at hl; rw [hl]; exact ⟨long, hnl, rfl⟩
+  have hlong : (long ++ [Stream.NL]).length > MAX_BUFFER_CAPACITY := by simp; omega
+  have e1 : pre.flatten ++ ((long ++ [Stream.NL]) ++ post) = pre.flatten ++ ([long ++ [Stream.NL]].flatten ++ post) := by
+    simp
+  -- the shorter file has the same kinds of lines
+  have hmix' : Mixed (MAX_BUFFER_CAPACITY / 2) MAX_BUFFER_CAPACITY (pre.flatten ++ post) := by
+    unfold Mixed at *
+    rw [e1, linesOf_append_lines pre hpre, linesOf_append_lines _ hline] at hmix
+    rw [linesOf_append_lines pre hpre]
+    refine ⟨fun l hl => hmix.1 l ?_, hmix.2⟩
+    rcases List.mem_append.mp hl with h | h
+    · exact List.mem_append.mpr (Or.inl h)
+    · exact List.mem_append.mpr (Or.inr (List.mem_append.mpr (Or.inr h)))
+  obtain ⟨sf, h⟩ := stream_eq_specM _ sched hmix
+  obtain ⟨sf', h'⟩ := stream_eq_specM _ sched' hmix'
+  have key1 : specOutM Lsym symOps.bumpLine symOps.lines MAX_BUFFER_CAPACITY {}
+      (pre.flatten ++ ((long ++ [Stream.NL]) ++ post)) = dropOutcome pre post true := by
+    unfold specOutM dropOutcome
+    cases hf : foldLM Lsym symOps.bumpLine MAX_BUFFER_CAPACITY {} pre with
+    | err k n => exact specRestM_err _ _ _ _ _ _ pre hpre _ k n hf
+    | panic e => exact specRestM_panic _ _ _ _ _ _ pre hpre _ e hf
+    | ok st1 =>
+      rw [specRestM_append _ _ _ _ _ st1 _ pre hpre _ hf]
+      have e2 : (long ++ [Stream.NL]) ++ post = [long ++ [Stream.NL]].flatten ++ post := by simp
+      rw [e2, specRestM_append _ _ _ _ st1 (symOps.bumpLine st1) _ [long ++ [Stream.NL]] hline post
+        (by simp only [foldLM, if_pos hlong])]
+      simp
+  have key2 : specOutM Lsym symOps.bumpLine symOps.lines MAX_BUFFER_CAPACITY {}
+      (pre.flatten ++ post) = dropOutcome pre post false := by
+    unfold specOutM dropOutcome
+    cases hf : foldLM Lsym symOps.bumpLine MAX_BUFFER_CAPACITY {} pre with
+    | err k n => exact specRestM_err _ _ _ _ _ _ pre hpre _ k n hf
+    | panic e => exact specRestM_panic _ _ _ _ _ _ pre hpre _ e hf
+    | ok st1 =>
+      rw [specRestM_append _ _ _ _ _ st1 _ pre hpre _ hf]
+      simp
+  exact ⟨sf, sf', by rw [h, key1], by rw [h', key2]⟩
+
+/-- an over-long line is never handed to the record parsers: whatever `parse_more` is given fits
+    the window, which never exceeds `MAX_BUFFER_CAPACITY` (`window_bounded`), and `parse_more` only
+    parses the complete lines inside it (`MdProofs.C10.parse_more_linewise`). -/
+theorem parsed_lines_fit (w : Bytes) (hw : w.length ≤ MAX_BUFFER_CAPACITY) :
+    ∀ l ∈ (linesOf w).1, l.length ≤ MAX_BUFFER_CAPACITY := by
+  intro l hl
+  have h1 := length_le_flatten hl
+  have h2 := congrArg List.length (linesOf_flatten w)
+  simp only [List.length_append] at h2
+  omega
+
+/-- non-vacuity of `Mixed`: a file with a short line, an over-long line and a short unterminated
+    rest (checked through the definition's decidable core on a scaled-down limit) -/
+example : Mixed 4 8 (kw "ab\n0123456789\ncd") := by
+  unfold Mixed
+  decide
 
 end MdModel.Sym
